@@ -190,6 +190,7 @@ pub struct StreamStats {
     pub macros_with_params: u64,
     pub the: u64,
     pub conditionals: u64,
+    pub toks_assignments: u64,
     pub truncated: bool,
 }
 
@@ -217,7 +218,7 @@ fn chain(rng: &mut Rng, k: usize, st: &mut StreamStats) -> Vec<Tok> {
 }
 
 fn atom(rng: &mut Rng, set: &MacroSet, flavor: Flavor, prev_safe: bool, st: &mut StreamStats) -> Vec<Tok> {
-    let r = rng.below(if flavor == Flavor::Mixed { 30 } else { 22 });
+    let r = rng.below(if flavor == Flavor::Mixed { 34 } else { 22 });
     match r {
         0..=9 => {
             let name = *rng.pick(&NAMES);
@@ -253,6 +254,39 @@ fn atom(rng: &mut Rng, set: &MacroSet, flavor: Flavor, prev_safe: bool, st: &mut
             } else {
                 vec![cs("the"), cs("toks"), ch('0'), Tok::Space]
             }
+        }
+        30..=33 => {
+            // token-list register traffic right in front of an \expandafter chain: the old value of an overwritten (or
+            // group-restored) register is handed back to the VM's pool of scratch buffers, which the optimised
+            // \expandafter draws from - and expects to be empty
+            if !prev_safe {
+                return vec![ch('w')];
+            }
+            st.toks_assignments += 1;
+            let value = |rng: &mut Rng| -> Vec<Tok> {
+                let mut v = vec![cs("toks"), ch('0'), ch('='), Tok::Begin];
+                for _ in 0..rng.range_usize(0, 3) {
+                    v.push(ch(*rng.pick(&['P', 'Q', 'R'])));
+                }
+                v.push(Tok::End);
+                v
+            };
+            let mut v = vec![];
+            match rng.below(3) {
+                0 => {
+                    v.extend(value(rng));
+                    v.extend(value(rng));
+                }
+                1 => {
+                    // restored at the end of a group
+                    v.extend(value(rng));
+                    v.push(Tok::Begin);
+                    v.extend(value(rng));
+                    v.push(Tok::End);
+                }
+                _ => v.extend(value(rng)),
+            }
+            v
         }
         _ => {
             st.conditionals += 1;
